@@ -216,6 +216,7 @@ func (e *Exec) mapLookup(st *State, m, k string, mt *types.Map) (Val, string) {
 	pn, vn := mapPHeapName(kty, vty), mapVHeapName(kty, vty)
 	e.regHeap(pn, "(Array Int (Array "+kty.Sort()+" Bool))")
 	e.regHeap(vn, "(Array Int (Array "+kty.Sort()+" "+vty.Sort()+"))")
+	e.mapKeySort[vn] = kty.Sort()
 	p := app("select", app("select", e.get(st, pn), m), k)
 	v := app("select", app("select", e.get(st, vn), m), k)
 	pres := and(not(eq(m, "0")), p)
